@@ -103,6 +103,8 @@ def xxh3_oracle_lines(ops):
             writers[t[1]] += bytes.fromhex(t[2][1:])
         elif t[0] == "wwritev" and t[1] in writers:
             writers[t[1]] += b"".join(bytes.fromhex(x[1:]) for x in t[2:])
+        elif t[0] == "put" and len(t) > 2 and "/content-v2/xxh3/" in t[1]:
+            blobs.append(bytes.fromhex(t[2][1:]))       # content another implementation stored under xxh3
         elif t[0] == "link_to" or t[0] == "lopen":
             pass
     blobs += list(writers.values())
